@@ -7,6 +7,7 @@ import (
 	"math/big"
 	"math/rand/v2"
 	"sort"
+	"strings"
 	"sync"
 
 	"github.com/NethermindEth/juno/core/crypto"
@@ -109,6 +110,7 @@ type trieCase struct {
 	Poseidon bool
 	Commit   bool
 	Twins    bool
+	Cousins  bool     // a small subtree repeated under two different prefixes (equal inner hashes at different positions)
 	Items    []lib.KV // sorted
 }
 
@@ -185,6 +187,37 @@ func genTrieCase(rng *rand.Rand, idx int) trieCase {
 		m[t.String()] = lib.KV{K: t, V: v}
 		c.Twins = true
 	}
+	// cousin subtrees: the same 2-3 leaves (same low bits, same values) below two different
+	// prefixes, so that inner nodes with equal hashes sit at different positions of the trie
+	// (a proof set keyed by hash holds them once)
+	if n >= 2 && rng.IntN(5) == 0 {
+		w := uint(1 + rng.IntN(8))
+		mask := new(big.Int).Sub(new(big.Int).Lsh(big.NewInt(1), w), big.NewInt(1))
+		p1 := new(big.Int).AndNot(randFelt(rng).BigInt(new(big.Int)), mask)
+		var p2 *big.Int
+		if rng.IntN(2) == 0 {
+			p2 = new(big.Int).AndNot(randFelt(rng).BigInt(new(big.Int)), mask)
+		} else { // close by: prefixes differ in one bit just above the window
+			j := int(w) + rng.IntN(10)
+			p2 = new(big.Int).SetBit(new(big.Int).Set(p1), j, p1.Bit(j)^1)
+		}
+		if p1.Cmp(p2) != 0 {
+			cnt := 2 + rng.IntN(2)
+			offs := map[uint64]*felt.Felt{}
+			for len(offs) < cnt && len(offs) < 1<<w {
+				offs[uint64(rng.IntN(1<<w))] = lib.F(0x70 + uint64(rng.IntN(4)))
+			}
+			if len(offs) >= 2 {
+				for o, v := range offs {
+					for _, pfx := range []*big.Int{p1, p2} {
+						k := new(big.Int).Or(new(big.Int).Set(pfx), new(big.Int).SetUint64(o))
+						m[k.String()] = lib.KV{K: k, V: v}
+					}
+				}
+				c.Cousins = true
+			}
+		}
+	}
 	c.Items = lib.SortedKVs(m)
 	return c
 }
@@ -205,6 +238,11 @@ type impl struct {
 	rprove func(l, r *felt.Felt) (nproof, error)
 	verify func(root, k *felt.Felt, p nproof) (felt.Felt, error)
 	rverif func(root, first *felt.Felt, keys, vals []*felt.Felt, p nproof, nilProof bool) (bool, error)
+	// rverifNative proves [l, r] afresh and hands the prover's own proof set (its node objects) to the verifier
+	rverifNative func(root, first *felt.Felt, keys, vals []*felt.Felt, l, r *felt.Felt) (bool, error)
+	// proveBatch proves all keys into ONE proof set (what starknet_getStorageProof does for the keys
+	// of one trie) and returns the neutral form of the set plus a verifier over the native set
+	proveBatch func(keys []*felt.Felt) (nproof, func(root, k *felt.Felt) (felt.Felt, error), error)
 }
 
 func openLegacy(c trieCase) (*impl, error) {
@@ -259,6 +297,22 @@ func openLegacy(c trieCase) (*impl, error) {
 			}
 			return trie.VerifyRangeProof(root, first, keys, vals, toLegacy(p))
 		},
+		proveBatch: func(keys []*felt.Felt) (nproof, func(root, k *felt.Felt) (felt.Felt, error), error) {
+			ps := trie.NewProofNodeSet()
+			for _, k := range keys {
+				if err := tr.Prove(k, ps); err != nil {
+					return nil, nil, err
+				}
+			}
+			return fromLegacy(ps), func(root, k *felt.Felt) (felt.Felt, error) { return trie.VerifyProof(root, k, ps, h) }, nil
+		},
+		rverifNative: func(root, first *felt.Felt, keys, vals []*felt.Felt, l, r *felt.Felt) (bool, error) {
+			ps := trie.NewProofNodeSet()
+			if err := tr.GetRangeProof(l, r, ps); err != nil {
+				return false, fmt.Errorf("harness: GetRangeProof: %w", err)
+			}
+			return trie.VerifyRangeProof(root, first, keys, vals, ps)
+		},
 	}, nil
 }
 
@@ -302,6 +356,26 @@ func openTrie2(c trieCase) (*impl, error) {
 				return trie2.VerifyRangeProof(root, first, keys, vals, nil)
 			}
 			return trie2.VerifyRangeProof(root, first, keys, vals, toTrie2(p, root))
+		},
+		proveBatch: func(keys []*felt.Felt) (nproof, func(root, k *felt.Felt) (felt.Felt, error), error) {
+			ps := trie2.NewProofNodeSet()
+			for _, k := range keys {
+				if err := tr.Prove(k, ps); err != nil {
+					return nil, nil, err
+				}
+			}
+			np, err := fromTrie2(ps)
+			if err != nil {
+				return nil, nil, err
+			}
+			return np, func(root, k *felt.Felt) (felt.Felt, error) { return trie2.VerifyProof(root, k, ps, h) }, nil
+		},
+		rverifNative: func(root, first *felt.Felt, keys, vals []*felt.Felt, l, r *felt.Felt) (bool, error) {
+			ps := trie2.NewProofNodeSet()
+			if err := tr.GetRangeProof(l, r, ps); err != nil {
+				return false, fmt.Errorf("harness: GetRangeProof: %w", err)
+			}
+			return trie2.VerifyRangeProof(root, first, keys, vals, ps)
 		},
 	}, nil
 }
@@ -446,6 +520,79 @@ func checkMembership(rp *reporter, idx int, c trieCase, im *impl, k *big.Int) (n
 		}
 	}
 	return p, ok
+}
+
+// checkBatch: several keys proven into one shared proof set (as the RPC does for the keys of
+// one trie); every key must verify from the shared set - natively, from the rebuilt set and
+// with the independent verifier - and yield the truth.
+func checkBatch(rp *reporter, idx int, c trieCase, im *impl, ks []*big.Int) {
+	r := rp.r
+	if len(c.Items) == 0 || len(ks) < 2 {
+		return
+	}
+	kf := make([]*felt.Felt, len(ks))
+	var names []string
+	for i, k := range ks {
+		kf[i] = lib.FeltOfBig(k)
+		names = append(names, k.Text(16))
+	}
+	var p nproof
+	var native func(root, k *felt.Felt) (felt.Felt, error)
+	var err error
+	wit := func() any { return memWitness{Impl: im.name, Trie: c.String(), Key: strings.Join(names, ",")} }
+	if rp.guard(idx, im.name+":Prove:batch", wit, func() { p, native, err = im.proveBatch(kf) }) {
+		return
+	}
+	r.Eval(1)
+	r.Count("membership.batched_proof_sets", 1)
+	if err != nil {
+		rp.viol(im.name+":prove-error:batch", idx, fmt.Sprintf("%s Prove of keys %v into one proof set failed: %v", im.name, names, err),
+			memWitness{Impl: im.name, Trie: c.String(), Root: im.root.String(), Key: strings.Join(names, ","), Err: err.Error()})
+		return
+	}
+	cond := "plain"
+	if c.Cousins {
+		cond = "equal-subtrees-at-different-positions"
+	} else if c.Twins {
+		cond = "identical-sibling-subtrees"
+	}
+	for i, k := range ks {
+		truth := c.truth(k)
+		kind := "present"
+		if truth.IsZero() {
+			kind = "absent"
+		}
+		for _, v := range []struct {
+			name string
+			fn   func() (felt.Felt, error)
+		}{
+			{"native-node-set", func() (felt.Felt, error) { return native(&im.root, kf[i]) }},
+			{"rebuilt-node-set", func() (felt.Felt, error) { return im.verify(&im.root, kf[i], p) }},
+			{"independent-verifier", func() (felt.Felt, error) { x, _, e := refVerify(&im.root, k, p.asMap(), c.hashFn()); return x, e }},
+		} {
+			var got felt.Felt
+			var e error
+			mk := func() memWitness {
+				w := memWitness{Impl: im.name, Trie: c.String(), Root: im.root.String(), Key: k.Text(16) + " of batch " + strings.Join(names, ","), Proof: p.String(), Truth: truth.String(), Got: got.String()}
+				if e != nil {
+					w.Err = e.Error()
+				}
+				return w
+			}
+			if rp.guard(idx, im.name+":VerifyProof:batch", func() any { return mk() }, func() { got, e = v.fn() }) {
+				continue
+			}
+			r.Eval(1)
+			r.Count("membership.batched_keys_verified", 1)
+			if e != nil {
+				rp.viol(fmt.Sprintf("%s:batched-proof-rejected:%s:%s:%s", im.name, kind, v.name, cond), idx,
+					fmt.Sprintf("%s: key %s (%s, #%d of %d proven into one proof set) does not verify from the shared set by %s: %v", im.name, k.Text(16), kind, i+1, len(ks), v.name, e), mk())
+			} else if !got.Equal(&truth) {
+				rp.viol(fmt.Sprintf("%s:batched-proof-wrong-value:%s:%s:%s", im.name, kind, v.name, cond), idx,
+					fmt.Sprintf("%s: key %s (#%d of %d proven into one proof set) yields %s by %s, true value %s", im.name, k.Text(16), i+1, len(ks), got.String(), v.name, truth.String()), mk())
+			}
+		}
+	}
 }
 
 // ---------------------------------------------------------------- membership: tampers
